@@ -120,6 +120,7 @@ struct Inner {
     horizon: usize,
     states: Vec<u64>,
     goals: Vec<&'static str>,
+    soft: Vec<Violation>,
     log: Option<Vec<String>>,
     /// replay of a bare value vector (from a replay file): labels are not checked, arities are.
     bare: Option<Vec<u32>>,
@@ -139,6 +140,7 @@ impl Ctx {
             horizon,
             states: Vec::new(),
             goals: Vec::new(),
+            soft: Vec::new(),
             log: if log { Some(Vec::new()) } else { None },
             bare,
         })))
@@ -221,6 +223,18 @@ impl Ctx {
         let mut i = self.0.borrow_mut();
         if !i.goals.contains(&name) {
             i.goals.push(name);
+        }
+    }
+    /// Record a violation without ending the execution (the harness goes on checking, so that a
+    /// listed known finding cannot mask a different violation later in the same execution).
+    pub fn soft_fail(&self, class: impl Into<String>, detail: impl Into<String>) {
+        let v = Violation { class: class.into(), detail: detail.into() };
+        let mut i = self.0.borrow_mut();
+        if let Some(l) = &mut i.log {
+            l.push(format!("  !! violation ({}): {}", v.class, v.detail));
+        }
+        if !i.soft.iter().any(|x| x.class == v.class) {
+            i.soft.push(v);
         }
     }
     pub fn logging(&self) -> bool {
@@ -353,6 +367,7 @@ struct ExecResult {
     devs: u32,
     states: Vec<u64>,
     goals: Vec<&'static str>,
+    soft: Vec<Violation>,
     log: Vec<String>,
     verdict: Result<Verdict, String>,
 }
@@ -366,6 +381,7 @@ fn exec_once<H: Harness + ?Sized>(h: &H, prefix: Vec<Pt>, cfg: &Config, log: boo
         devs: i.devs,
         states: std::mem::take(&mut i.states),
         goals: std::mem::take(&mut i.goals),
+        soft: std::mem::take(&mut i.soft),
         log: i.log.take().unwrap_or_default(),
         verdict,
     }
@@ -548,6 +564,9 @@ fn worker<H: Harness + ?Sized>(sh: &Shared<'_, H>) -> Local {
         } else if !r.states.is_empty() {
             loc.capped = true;
         }
+        for v in &r.soft {
+            record_violation(sh, &mut loc, v.clone(), &r);
+        }
         match &r.verdict {
             Ok(Verdict::Pass(o)) => {
                 if loc.outcomes.len() < sh.cfg.set_cap / sh.cfg.threads.max(1) {
@@ -703,7 +722,11 @@ fn merge_local(st: &mut Stats, l: Local) {
 pub fn replay<H: Harness + ?Sized>(h: &H, budget: u32, choices: &[u32]) -> (Vec<String>, Result<Verdict, String>) {
     let cfg = Config { budget, ..Default::default() };
     let r = exec_once(h, vec![], &cfg, true, Some(choices.to_vec()));
-    (r.log, r.verdict)
+    let verdict = match (r.verdict, r.soft.into_iter().next()) {
+        (Ok(Verdict::Pass(_)), Some(v)) => Ok(Verdict::Fail(v)),
+        (v, _) => v,
+    };
+    (r.log, verdict)
 }
 
 // ------------------------------------------------------------------------------------------------
